@@ -39,7 +39,7 @@ def gen_case(seed, promote=False):
         if x < 0.63: return f"del {c} {xs(r.choice(KEYS))}"
         if x < 0.70: return f"pdel {c} {xs(r.choice(PATS))}"
         if x < 0.80: return f"set {c} {xs(gg(c))} {js([r.choice(PATS) for _ in range(r.randint(0, 2))])}"
-        if x < 0.90: return f"set {c} {xs(lw(c))} {js([{'key': r.choice(KEYS), 'value': val()} for _ in range(r.randint(0, 2))])}"
+        if x < 0.90: return f"set {c} {xs(lw(c))} {js([{'key': r.choice([f'w/{c}', f'lw{c}/x', f'g/lw{c}']), 'value': val()} for _ in range(r.randint(0, 2))])}"
         if x < 0.93: return f"set {c} {xs(gg(r.randint(1, nclients)))} {js(['a/#'])}"          # somebody else's registration: refused
         if len(connected) > 0:
             connected.discard(c); return f"disc {c}"
@@ -144,6 +144,8 @@ def run(v, tier, seed, prop=ID, promote=False, oracle=None):
         v.violation({"what": "cluster model and the real cluster disagree; follower and leader agreed at every quiescent point of every observed trace", "case": nm, "engine": "cluster", "driver": "cluster_driver",
                      "ops": ops[:step + 1], "ops_readable": [decode_tok(o) for o in ops[:step + 1]], "step": step, "impl": decode_tok(x)[:1500], "model": decode_tok(y)[:1500], "disagreeing_cases": len(diffs),
                      "broken_obligation": f"correspondence cluster/{prop} (Model/Sync.v lstep / fapply / fjoin / promote)"}, no_input=True)
-    v.cov.update({"evaluations": len(cases), "distinct_nontrivial": len(nontrivial), "steps": nsteps, "disagreements": len(diffs), "followers_joined": joins, "dumps_compared": dumps,
+    samples = [{"case": nm, "ops": [decode_tok(o) for o in ops][:40], "observed": [decode_tok(l)[:300] for l in A.get(nm, [])][:40]} for nm, ops in cases if nm in nontrivial][:2] or \
+              [{"case": cases[0][0], "ops": [decode_tok(o) for o in cases[0][1]], "observed": [decode_tok(l)[:300] for l in A.get(cases[0][0], [])]}]
+    v.cov.update({"evaluations": len(cases), "distinct_nontrivial": len(nontrivial), "steps": nsteps, "disagreements": len(diffs), "followers_joined": joins, "dumps_compared": dumps, "samples": samples,
                   "rule": f"leader and followers as child processes of the freshly built worterbuch binary, started with the orchestrator's argv (--leader --sync-port / --follower --leader-address, --instance-name) and configured through the environment only; clients are TCP connections; corpus (the F10a/F11/F21 demonstration" + ("" if promote else ", the CAS import of F10b") + f") + {n} random histories: 1..3 clients connecting, writing (set, cset, delete, pdelete on user keys, $SYS keys, `$SYS`, $SYSTEM), registering and re-registering grave goods and last wills (own and foreign), disconnecting; one or two followers joining at random positions; writes offered to followers over their REST interface; quiescence by a marker written on the leader and awaited on every follower; dumps (REST export: user keys with values and CAS versions; registrations) of leader and followers compared with each other (oracle) and with the model; non-trivial = a session ended after a follower had joined",
                   "not_covered": "TCP reordering or loss between leader and follower (one ordered stream is assumed), followers reconnecting after a leader change, the websocket interface of the leader"})
